@@ -171,9 +171,74 @@ type vfC16World struct {
 	served  sync.Map
 	qseq    int64
 	filt    map[string]bool
-	timeout bool // a wait for the expected state has expired in this scenario
-	scope     *vfScope
+	mismatch bool // a step ended in a state other than the one that came with the history
+	stalled  bool // the session was still busy at the hard limit of a wait
 	debounced int32 // direct mode: a debounced ring refresh has been requested
+	rr        *roundRobinHostPolicy
+	spawns    int64 // successful pool connects (each one starts a handleNodeConnected goroutine)
+	hostUps   int64 // HostUp calls that reached the policy (end of handleNodeConnected)
+}
+
+// vfC16Policy wraps the round-robin policy to see when the session's asynchronous
+// handleNodeConnected calls have finished (quiescence), nothing else.
+type vfC16Policy struct {
+	HostSelectionPolicy
+	w *vfC16World
+}
+
+func (p *vfC16Policy) Init(s *Session) {
+	vfC16Worlds.Store(s, p.w)
+	p.HostSelectionPolicy.Init(s)
+}
+
+func (p *vfC16Policy) HostUp(h *HostInfo) {
+	p.HostSelectionPolicy.HostUp(h)
+	atomic.AddInt64(&p.w.hostUps, 1)
+}
+
+var (
+	vfC16Worlds     sync.Map // *Session -> *vfC16World
+	vfC16Debouncers sync.Map // *refreshDebouncer -> *vfC16World
+	vfC16Scope      *vfScope
+	vfC16ScopeOnce  sync.Once
+	vfC16Events     int64
+)
+
+// vfC16InstallScope routes the pool / debouncer hooks of every scenario of this process.
+func vfC16InstallScope() {
+	vfC16ScopeOnce.Do(func() {
+		sc := vfNewScope()
+		trim := func() {
+			if atomic.AddInt64(&vfC16Events, 1)%4096 == 0 {
+				sc.tr.mu.Lock()
+				sc.tr.evs = nil
+				sc.tr.mu.Unlock()
+			}
+		}
+		sc.OnConn = func(point string, c *Conn, call *callReq, a, b int, err error) { trim() }
+		sc.OnEvent = func(point string, obj interface{}, str string, a int, err error) {
+			trim()
+			switch point {
+			case "p_connect_add", "p_connect_late":
+				if p, ok := obj.(*hostConnPool); ok {
+					if w, ok := vfC16Worlds.Load(p.session); ok {
+						atomic.AddInt64(&w.(*vfC16World).spawns, 1)
+					}
+				}
+			case "d_debounce":
+				if w, ok := vfC16Debouncers.Load(obj); ok {
+					atomic.StoreInt32(&w.(*vfC16World).debounced, 1)
+				}
+			}
+		}
+		vfC16Scope = sc
+		vfDefault.Store(sc)
+	})
+}
+
+// pendingUps: handleNodeConnected goroutines that have been started and have not finished.
+func (w *vfC16World) pendingUps() int64 {
+	return atomic.LoadInt64(&w.spawns) - atomic.LoadInt64(&w.hostUps)
 }
 
 var vfC16Tokens = map[string][]string{}
@@ -249,8 +314,12 @@ func vfC16NewWorld(sc *vfC16Scenario) (*vfC16World, error) {
 	}
 	w.dialer = vfNewDialer(nodes...)
 	cfg := vfClusterConfig(w.dialer, 4, vfC16IP("a0"))
-	cfg.PoolConfig.HostSelectionPolicy = RoundRobinHostPolicy()
+	vfC16InstallScope()
+	w.rr = RoundRobinHostPolicy().(*roundRobinHostPolicy)
+	cfg.PoolConfig.HostSelectionPolicy = &vfC16Policy{HostSelectionPolicy: w.rr, w: w}
 	cfg.ReconnectionPolicy = &ConstantReconnectionPolicy{MaxRetries: 1, Interval: 0}
+	cfg.Timeout = 5 * time.Second // a slow machine must not look like a failing refresh
+	cfg.ConnectTimeout = 5 * time.Second
 	for _, a := range sc.Filt {
 		w.filt[vfC16IP(a)] = true
 	}
@@ -271,13 +340,7 @@ func vfC16NewWorld(sc *vfC16Scenario) (*vfC16World, error) {
 		// exercised by the wire-mode scenarios.
 		old := s.ringRefresher
 		nd := newRefreshDebouncer(time.Hour, func() error { return refreshRing(s.hostSource) })
-		w.scope = vfNewScope()
-		w.scope.OnEvent = func(point string, obj interface{}, str string, a int, err error) {
-			if point == "d_debounce" {
-				atomic.StoreInt32(&w.debounced, 1)
-			}
-		}
-		w.scope.Bind(nd)
+		vfC16Debouncers.Store(nd, w)
 		s.ringRefresher = nd
 		vfWithin(2*time.Second, old.stop)
 	}
@@ -286,9 +349,8 @@ func vfC16NewWorld(sc *vfC16Scenario) (*vfC16World, error) {
 
 func (w *vfC16World) close() {
 	vfWithin(3*time.Second, w.s.Close)
-	if w.scope != nil {
-		w.scope.Unbind(w.s.ringRefresher)
-	}
+	vfC16Debouncers.Delete(w.s.ringRefresher)
+	vfC16Worlds.Delete(w.s)
 	for _, n := range w.nodes {
 		n.CloseAll()
 	}
@@ -341,7 +403,7 @@ func (w *vfC16World) project(withQueries bool) *vfC16Rec {
 	}
 	s.pool.mu.RUnlock()
 	sort.Slice(r.Pool, func(i, j int) bool { return r.Pool[i].ID < r.Pool[j].ID })
-	if rr, ok := s.policy.(*roundRobinHostPolicy); ok {
+	if rr := w.rr; rr != nil {
 		for _, h := range rr.hosts.get() {
 			r.Pol = append(r.Pol, vfC16PA{ID: nm.I(h.HostID()), Addr: nm.A(h.ConnectAddress())})
 		}
@@ -413,16 +475,22 @@ func (w *vfC16World) matches(r *vfC16Rec, e *vfC16Exp, refreshes int) bool {
 		vfC16SetEq(vfC16IDs(r.Pool), e.Pool) &&
 		vfC16SetEq(vfC16IDs(r.Pol), e.Pol) &&
 		vfC16SetEq(down, e.Down) &&
-		len(r.HList) == len(r.Hosts) && w.poolsIdle()
+		len(r.HList) == len(r.Hosts) && w.idle()
 }
 
-// poolsIdle: no pool is filling and every pool has its connection.
+// poolsIdle: no pool is filling and every pool of a node that answers has its connection.
 func (w *vfC16World) poolsIdle() bool {
 	w.s.pool.mu.RLock()
 	defer w.s.pool.mu.RUnlock()
 	for _, p := range w.s.pool.hostConnPools {
+		answers := true
+		if n := w.dialer.Node(p.host.ConnectAddress().String()); n != nil {
+			n.mu.Lock()
+			answers = !n.Down
+			n.mu.Unlock()
+		}
 		p.mu.RLock()
-		busy := p.filling || len(p.conns) < p.size
+		busy := p.filling || (answers && len(p.conns) < p.size)
 		p.mu.RUnlock()
 		if busy {
 			return false
@@ -431,41 +499,74 @@ func (w *vfC16World) poolsIdle() bool {
 	return true
 }
 
-// settle waits for quiescence: until the projection equals the expectation that came with the
-// history (bounded), or - without expectation / after a first expiry - a fixed settle time that
-// exceeds the driver's own post-failure pause (<= 131 ms in fillingStopped).
-func (w *vfC16World) settle(e *vfC16Exp, base int64, minWait, maxWait time.Duration) (rec *vfC16Rec, matched bool, waited time.Duration) {
+// controlIdle: the control connection is established (or cannot be: its node does not answer)
+// and no reconnection is under way.
+func (w *vfC16World) controlIdle() bool {
+	c := w.s.control
+	if c == nil {
+		return true
+	}
+	if atomic.LoadInt32(&c.reconnecting) == 1 {
+		return false
+	}
+	n := w.nodes["a0"]
+	n.mu.Lock()
+	down := n.Down
+	n.mu.Unlock()
+	ch := c.getConn()
+	if ch == nil || ch.conn.Closed() {
+		return down
+	}
+	return true
+}
+
+func (w *vfC16World) idle() bool {
+	return w.poolsIdle() && w.pendingUps() <= 0 && w.controlIdle()
+}
+
+// settle waits for quiescence and projects the state.  The wait ends when the projection equals
+// the expectation that came with the history and nothing is under way (matched); or when nothing
+// has been under way for a grace period although the projection differs (the recorded state is
+// then what TLC judges); or - stalled - at a hard limit while the session is still busy (the
+// scenario is then not judged at all: a machine stall is not evidence).  Wire-mode steps first
+// wait out the driver's own debounce timers, which no flag shows.
+func (w *vfC16World) settle(e *vfC16Exp, base int64, minWait, timerWait time.Duration) (rec *vfC16Rec, matched bool, waited time.Duration) {
+	const grace = 150 * time.Millisecond // > the driver's pause after a failed fill (<= 131 ms)
+	const hardCap = 15 * time.Second
 	t0 := time.Now()
 	if minWait > 0 {
 		time.Sleep(minWait)
 	}
-	if e != nil && !w.timeout {
-		for {
+	var idleSince time.Time
+	for {
+		now := time.Now()
+		if e != nil {
 			rec = w.project(false)
 			if w.matches(rec, e, int(atomic.LoadInt64(&w.peersQ)-base)) {
-				// stable over a short second look
 				time.Sleep(2 * time.Millisecond)
-				r2 := w.project(false)
-				if w.matches(r2, e, int(atomic.LoadInt64(&w.peersQ)-base)) {
+				if w.matches(w.project(false), e, int(atomic.LoadInt64(&w.peersQ)-base)) {
 					matched = true
 					break
 				}
 			}
-			if time.Since(t0) > maxWait {
-				w.timeout = true
+		}
+		if w.idle() {
+			if idleSince.IsZero() {
+				idleSince = now
+			} else if now.Sub(idleSince) >= grace && now.Sub(t0) >= timerWait {
 				break
 			}
-			time.Sleep(3 * time.Millisecond)
+		} else {
+			idleSince = time.Time{}
 		}
-	} else {
-		fixed := 400 * time.Millisecond
-		if w.sc.Mode == "wire" {
-			fixed = 2600 * time.Millisecond
+		if now.Sub(t0) > hardCap {
+			w.stalled = true
+			break
 		}
-		time.Sleep(fixed)
-		for i := 0; i < 100 && !w.poolsIdle(); i++ {
-			time.Sleep(10 * time.Millisecond)
-		}
+		time.Sleep(3 * time.Millisecond)
+	}
+	if e != nil && !matched {
+		w.mismatch = true
 	}
 	rec = w.project(true)
 	rec.Refreshes = int(atomic.LoadInt64(&w.peersQ) - base)
@@ -491,6 +592,18 @@ func (w *vfC16World) setDown(a string, down bool) {
 	n.mu.Unlock()
 }
 
+// vfC16ErrClass: "timeout" marks an answer that did not arrive in time (machine stall: the
+// scenario is then not judged), anything else is an error the refresh reported.
+func vfC16ErrClass(err error) string {
+	if c := vfErrClass(err); c == "timeout" || c == "ctx" {
+		return "timeout"
+	}
+	if strings.Contains(err.Error(), "timeout") || strings.Contains(err.Error(), "no response") {
+		return "timeout"
+	}
+	return "error"
+}
+
 func (w *vfC16World) exec(st *vfC16Step) (errs string, pan string) {
 	defer func() {
 		if p := recover(); p != nil {
@@ -502,13 +615,13 @@ func (w *vfC16World) exec(st *vfC16Step) (errs string, pan string) {
 		w.setTruth(st.Rows)
 		w.setFail(st.Fail)
 		var err error
-		ok, _ := vfWithin(8*time.Second, func() { err = w.s.refreshRing() })
+		ok, _ := vfWithin(20*time.Second, func() { err = w.s.refreshRing() })
 		w.setFail("none")
 		if !ok {
 			return "hang", ""
 		}
 		if err != nil {
-			return "error", ""
+			return vfC16ErrClass(err), ""
 		}
 	case "events", "burst":
 		w.setTruth(st.Rows)
@@ -539,9 +652,13 @@ func (w *vfC16World) exec(st *vfC16Step) (errs string, pan string) {
 			w.s.handleNodeEvent(frames)
 			if atomic.SwapInt32(&w.debounced, 0) == 1 {
 				// the debounce interval elapses
-				ok, _ := vfWithin(8*time.Second, func() { <-w.s.ringRefresher.refreshNow() })
+				var err error
+				ok, _ := vfWithin(20*time.Second, func() { err = <-w.s.ringRefresher.refreshNow() })
 				if !ok {
 					return "hang", ""
+				}
+				if err != nil {
+					return vfC16ErrClass(err), ""
 				}
 			}
 		}
@@ -577,9 +694,10 @@ func vfC16Run(sc *vfC16Scenario, out *vfNDJSON) (steps int, timeouts int, err er
 		return 0, 0, err
 	}
 	defer w.close()
-	maxWait := 1500 * time.Millisecond
+	// wire mode: a differing state is accepted only after the driver's two 1 s timers had time to fire
+	timerWait := time.Duration(0)
 	if sc.Mode == "wire" {
-		maxWait = 4500 * time.Millisecond
+		timerWait = 3200 * time.Millisecond
 	}
 	fill := func(r *vfC16Rec, k int, st *vfC16Step) {
 		r.Sc, r.K, r.Mode, r.Filt = sc.N, k, sc.Mode, append([]string{}, sc.Filt...)
@@ -596,7 +714,7 @@ func vfC16Run(sc *vfC16Scenario, out *vfNDJSON) (steps int, timeouts int, err er
 			r.Fail = "none"
 		}
 	}
-	rec, m, wt := w.settle(sc.Exp0, 0, 0, maxWait)
+	rec, m, wt := w.settle(sc.Exp0, 0, 0, 0)
 	fill(rec, 0, &vfC16Step{Op: "init", Rows: sc.Init})
 	rec.Refreshes = 0
 	rec.Matched, rec.Waited = m, int(wt/time.Millisecond)
@@ -612,7 +730,7 @@ func vfC16Run(sc *vfC16Scenario, out *vfNDJSON) (steps int, timeouts int, err er
 				minWait = 2600 * time.Millisecond
 			}
 		}
-		rec, m, wt := w.settle(st.Exp, base, minWait, maxWait)
+		rec, m, wt := w.settle(st.Exp, base, minWait, timerWait)
 		fill(rec, k+1, st)
 		rec.Err, rec.Panic, rec.Matched, rec.Waited = errs, pan, m, int(wt/time.Millisecond)
 		out.Write(rec)
@@ -620,39 +738,40 @@ func vfC16Run(sc *vfC16Scenario, out *vfNDJSON) (steps int, timeouts int, err er
 		if pan != "" {
 			break
 		}
-		if w.timeout {
-			// the state the model expects was not reached in time: the recorded state is judged
-			// by TLC; what follows from it is not executed
-			return steps, 1, nil
+		if w.mismatch || w.stalled {
+			// the state the model expects was not reached: the recorded state is judged by TLC;
+			// what follows from it is not executed
+			break
 		}
 	}
-	// late effects (a refresh or a pool goroutine still under way): one more look
-	last := (*vfC16Exp)(nil)
-	if n := len(sc.Steps); n > 0 {
-		last = sc.Steps[n-1].Exp
-	} else {
-		last = sc.Exp0
+	if !w.mismatch && !w.stalled {
+		// late effects (something the flags do not show): one more look
+		last := sc.Exp0
+		rows := sc.Init
+		if n := len(sc.Steps); n > 0 {
+			last, rows = sc.Steps[n-1].Exp, sc.Steps[n-1].Rows
+		}
+		base := atomic.LoadInt64(&w.peersQ)
+		lateWait := 40 * time.Millisecond
+		if sc.Mode == "wire" {
+			lateWait = 1200 * time.Millisecond
+		}
+		var le *vfC16Exp
+		if last != nil {
+			c := *last
+			c.Refreshes = 0
+			le = &c
+		}
+		rec, m, wt = w.settle(le, base, lateWait, 0)
+		fill(rec, len(sc.Steps)+1, &vfC16Step{Op: "settle", Rows: rows})
+		rec.Matched, rec.Waited = m, int(wt/time.Millisecond)
+		out.Write(rec)
 	}
-	base := atomic.LoadInt64(&w.peersQ)
-	lateWait := 60 * time.Millisecond
-	if sc.Mode == "wire" {
-		lateWait = 1200 * time.Millisecond
+	if w.stalled {
+		out.Write(&vfC16Rec{Sc: sc.N, K: -1, Mode: sc.Mode, Op: "stalled", Rows: []vfC16Row{}, Fail: "none", Evs: []vfC16Ev{}, Filt: []string{},
+			Hosts: []vfC16Host{}, ByID: []vfC16PA{}, ByAddr: []vfC16PA{}, HList: []string{}, Pool: []vfC16PA{}, Pol: []vfC16PA{}, Served: []string{}})
 	}
-	var le *vfC16Exp
-	if last != nil {
-		c := *last
-		c.Refreshes = 0
-		le = &c
-	}
-	rec, m, wt = w.settle(le, base, lateWait, maxWait)
-	rows := sc.Init
-	if n := len(sc.Steps); n > 0 {
-		rows = sc.Steps[n-1].Rows
-	}
-	fill(rec, len(sc.Steps)+1, &vfC16Step{Op: "settle", Rows: rows})
-	rec.Matched, rec.Waited = m, int(wt/time.Millisecond)
-	out.Write(rec)
-	if w.timeout {
+	if w.mismatch {
 		timeouts = 1
 	}
 	return steps, timeouts, nil
@@ -664,7 +783,8 @@ type vfC16Summary struct {
 	Scenarios int
 	Steps     int
 	Errors    int
-	Timeouts  int
+	Timeouts  int // scenarios that ended in a state other than the expected one
+	Stalled   int
 	FirstErr  string
 	WallMs    int
 }
